@@ -48,5 +48,7 @@ SEEDED = [
     ("C08-9", "C08-SAME"),
     ("C08-10", "C08-CONST"),
     ("C08-11", "C08-DET"),
+    ("C08-12", "C08-OVER"),
+    ("C08-13", "C08-PATCH"),
 ]
 MUTANTS = list(MUTANTS) + [_P("seed-" + sid, _os.path.join(_SEEDS, sid, "patch.diff"), rule) for sid, rule in SEEDED if _os.path.exists(_os.path.join(_SEEDS, sid, "patch.diff"))]
